@@ -542,7 +542,10 @@ func (e *signersEnv) exec(line string) (res string) {
 		if err1 != nil || err2 != nil || proposed == nil {
 			return "bad-op"
 		}
-		k.SetScopeSpecification(ctx, types.ScopeSpecification{SpecificationId: scopeSpecID, PartiesInvolved: roles})
+		if roleStr != "none" {
+			// roles=none: the stored scope's specification no longer exists
+			k.SetScopeSpecification(ctx, types.ScopeSpecification{SpecificationId: scopeSpecID, PartiesInvolved: roles})
+		}
 		if existing != nil {
 			if err = k.SetScope(ctx, e.mkScope(existing)); err != nil {
 				return "bad-op"
@@ -1129,6 +1132,7 @@ func (g *signersGGen) genCaller() string {
 			avail = nil
 		}
 		newRoles, coverRoles := "", roles
+		var newCover []int
 		if existing != "none" && g.r.Chance(20) {
 			// the proposed scope names another specification (its roles come from the proposed owners)
 			nr := g.roles(propOwners, 2)
@@ -1145,12 +1149,19 @@ func (g *signersGGen) genCaller() string {
 			}
 			coverRoles = roles
 			newRoles = " newroles=" + signersGRoles(nr)
-			if g.r.Bool() {
+			newCover = nr
+			if g.r.Chance(30) {
+				// signers that only satisfy the NAMED specification: rejected since 89425229f
 				coverRoles = nr
 			}
 		}
+		rolesStr := signersGRoles(roles)
+		if newRoles != "" && g.r.Chance(15) {
+			// the stored scope's specification was deleted: the named one governs
+			rolesStr, coverRoles = "none", newCover
+		}
 		g.signersFor(must, avail, coverRoles, signersGAddrsOf(owners, propOwners))
-		return fmt.Sprintf("wscope existing=%s proposed=%s roles=%s%s", existing, signersGScope(propRollup, propOther, propOwners), signersGRoles(roles), newRoles) + g.tail()
+		return fmt.Sprintf("wscope existing=%s proposed=%s roles=%s%s", existing, signersGScope(propRollup, propOther, propOwners), rolesStr, newRoles) + g.tail()
 	case x < 24: // dscope
 		g.mt = "DeleteScope"
 		roles := g.roles(owners, 2)
